@@ -142,6 +142,17 @@ fn client_set_name(it: &mut ResponseIterator, name: &[u8]) -> (r: Result<(), Err
     r
 }
 
+// what one deletion through a valid cursor does to the bytes: mid = the (decompressed) packet it worked on, v = the result.
+// The section then has n-1 records: the k records before the cursor where they were, the n-k-1 after it moved up to the cursor's position
+pub open spec fn cut_post(it0: &ResponseIterator, mid: ParsedPacket, v: Seq<u8>) -> bool {
+    let u = mid.bytes(); let si = sec_idx(it0.rr_iterator.section); let k = it0.visited() - 1; let st = sec_st(u, si); let n = sec_n(u, si);
+    let o = cur_o(it0) as int; let next = cur_next(it0, mid);
+    after_unc(mid, it0.pp()) && pf_packet(u) && n == it0.count() && 0 <= k < n && o == pf_rrs_end(u, st, k) && next == pf_rrs_end(u, st, k + 1)
+    && sec_st(v, si) == st && sec_n(v, si) == n - 1 && pf_rrs_end(v, st, k) == o && pf_rrs(v, st, n - 1) && pf_rrs(v, o, n - k - 1)
+    && v.len() == u.len() - (next - o) && o < next
+    && (forall|i: int| 12 <= i < o ==> v[i] == u[i])
+    && (forall|i: int| o <= i < v.len() ==> v[i] == u[i + (next - o)])
+}
 // C11: "each deletion removes exactly the record under the cursor, a second deletion through the same cursor reports a void record without touching anything"
 fn client_delete(it: &mut ResponseIterator) -> (r: Result<(), Error>)
     requires mut_ready(old(it)), old(it).pp().maybe_compressed ==> wf_packet(old(it).pk()),
@@ -151,14 +162,7 @@ fn client_delete(it: &mut ResponseIterator) -> (r: Result<(), Error>)
             && final(it).rr_iterator.section == old(it).rr_iterator.section && final(it).tfin() == old(it).tfin() && final(it).pk().len() <= 0xffff,
         final(it).count() == old(it).count() - 1,
         // exactly that record is cut out of the (decompressed) packet
-        exists|mid: ParsedPacket| #[trigger] after_unc(mid, old(it).pp()) && ({
-           let u = mid.bytes(); let v = final(it).pk(); let si = sec_idx(old(it).rr_iterator.section); let k = old(it).visited() - 1;
-           let st = sec_st(u, si); let n = sec_n(u, si); let o = cur_o(old(it)) as int; let next = cur_next(old(it), mid);
-           // the section now has n-1 records: the k records before the cursor where they were, the n-k-1 after it moved up to the cursor's position
-           sec_st(v, si) == st && sec_n(v, si) == n - 1 && pf_rrs_end(v, st, k) == o && pf_rrs(v, st, n - 1) && pf_rrs(v, o, n - k - 1)
-           && v.len() == u.len() - (next - o) && o < next
-           && (forall|i: int| 12 <= i < o ==> v[i] == u[i])
-           && (forall|i: int| o <= i < v.len() ==> v[i] == u[i + (next - o)]) }),
+        exists|mid: ParsedPacket| #[trigger] cut_post(old(it), mid, final(it).pk()),
 {
     hide(pf_rr); hide(pf_rrs); hide(pf_rrs_end); hide(pf_n_opt); hide(pf_packet); hide(opt_at); hide(pcs_walk); hide(rec_ok); hide(opts); hide(wf_bytes); hide(recs_all); hide(sec_end); hide(n_opt);
     hide(ParsedPacket::wf); hide(walk); hide(skip_walk); hide(uncompress_spec); hide(bmap); hide(wf_packet);
@@ -175,7 +179,10 @@ fn client_delete(it: &mut ResponseIterator) -> (r: Result<(), Error>)
         lemma_deleted_wf(fin, mid, si, k);
         lemma_pf_rr_spec(u, o as int, SecT::Answer, false);
         lemma_pf_wf_bytes(v);
+        lemma_pf_packet_facts(u);
+        lemma_opt_at_3(u, sec_st(u, si), sec_n(u, si), k, 1);
         assert(it.wf()) by { reveal(ParsedPacket::wf); }
+        assert(cut_post(&it0, mid, v));
     }
     // a second deletion through the same cursor
     let ghost it1 = *it;
@@ -303,4 +310,98 @@ fn client_set_qname(it: &mut QuestionIterator, name: &[u8]) -> (r: Result<(), Er
         }
     }
     r
+}
+
+// ---------------------------------------------------------------------------------------------------------------------------------
+// C11, the general statement: a walk over the answer section that deletes an ARBITRARY subset of the records it is given.
+// `decide` has no contract, so the verifier must treat its answers as arbitrary (any subset, any order of answers on revisits).
+#[verifier::external_body]
+fn decide(it: &ResponseIterator) -> (d: bool) { unimplemented!() }
+
+pub open spec fn ref_bytes(pp: ParsedPacket) -> Seq<u8> { if pp.maybe_compressed { uncompress_spec(pp.bytes()) } else { pp.bytes() } }
+pub open spec fn increasing(cur: Seq<int>, n: int) -> bool {
+    (forall|j: int| 0 <= j < cur.len() ==> 0 <= #[trigger] cur[j] < n) && (forall|i: int, j: int| 0 <= i < j < cur.len() ==> cur[i] < cur[j])
+}
+// the records currently in the answer section of v are, in order, the records cur[0], cur[1], .. of the reference packet u0
+pub open spec fn holds_recs(v: Seq<u8>, u0: Seq<u8>, cur: Seq<int>) -> bool {
+    pf_packet(v) && sec_st(v, 1) == sec_st(u0, 1) && sec_n(v, 1) == cur.len()
+    && forall|j: int| 0 <= j < cur.len() ==> #[trigger] rec_bytes(v, sec_st(u0, 1), j) == rec_bytes(u0, sec_st(u0, 1), cur[j])
+}
+fn client_walk_delete_answers(pp: &mut ParsedPacket) -> (res: (Ghost<Seq<int>>, Ghost<Set<int>>))
+    requires old(pp).wf(), old(pp).bytes().len() <= 0xffff,
+        (if old(pp).maybe_compressed { wf_packet(old(pp).bytes()) && uncompress_spec(old(pp).bytes()).len() <= 0xffff } else { pf_packet(old(pp).bytes()) }),
+    ensures final(pp).wf(),
+        ({ let u0 = ref_bytes(*old(pp)); let n0 = sec_count(old(pp).bytes(), Section::Answer); let cur = res.0@; let yielded = res.1@;
+           // "afterwards the section holds exactly the survivors in their original order with a matching count"
+           increasing(cur, n0) && sec_count(final(pp).bytes(), Section::Answer) == cur.len()
+           && (cur.len() < n0 ==> holds_recs(final(pp).bytes(), u0, cur) && !final(pp).maybe_compressed)
+           // "every surviving record is yielded at least once"
+           && (forall|j: int| 0 <= j < cur.len() ==> yielded.contains(#[trigger] cur[j]))
+           // "an emptied section reads as absent"
+           && (cur.len() == 0 ==> final(pp).offset_answers.is_none()) }),
+{
+    hide(pf_rr); hide(pf_rrs); hide(pf_rrs_end); hide(pf_n_opt); hide(pf_packet); hide(opt_at); hide(pcs_walk); hide(rec_ok); hide(opts); hide(wf_bytes); hide(recs_all); hide(sec_end); hide(n_opt);
+    hide(walk); hide(skip_walk); hide(uncompress_spec); hide(bmap); hide(wf_packet); hide(rec_bytes);
+    let ghost pp0 = *pp; let ghost p0 = pp.bytes(); let ghost u0 = ref_bytes(*pp); let ghost n0 = sec_count(pp.bytes(), Section::Answer); let ghost st0 = sec_st(u0, 1);
+    let ghost fin = *final(pp);
+    let ghost mut cur: Seq<int> = Seq::new(n0 as nat, |j: int| j);
+    let ghost mut yielded: Set<int> = Set::empty();
+    proof {
+        if pp0.maybe_compressed { theorem_c05(p0); lemma_un_pf_packet(p0); assert(wf_bytes(p0)) by { reveal(ParsedPacket::wf); }
+            assert(sec_n(u0, 1) == n0) by { reveal(pf_packet); reveal(wf_bytes); assert(u0.subrange(0, 12)[6] == u0[6] && u0.subrange(0, 12)[7] == u0[7] && p0.subrange(0, 12)[6] == p0[6] && p0.subrange(0, 12)[7] == p0[7]); } }
+    }
+    let mut it = pp.into_iter_answer();
+    while let Some(item) = it
+        invariant
+            increasing(cur, n0), n0 <= 0xffff, u0 == ref_bytes(pp0), p0 == pp0.bytes(), st0 == sec_st(u0, 1), pf_packet(u0), sec_n(u0, 1) == n0,
+            it matches Some(i) ==> mut_ready(&i) && i.rr_iterator.section is Answer && (i.pp().maybe_compressed ==> wf_packet(i.pk()))
+                && i.count() == cur.len() && i.tfin() == fin
+                && (if i.pp().maybe_compressed { i.pp() == pp0 && cur =~= Seq::new(n0 as nat, |j: int| j) } else { holds_recs(i.pk(), u0, cur) })
+                && (forall|j: int| 0 <= j < i.visited() - 1 ==> yielded.contains(#[trigger] cur[j])),
+            it is None ==> fin.wf() && sec_count(fin.bytes(), Section::Answer) == cur.len()
+                && (cur.len() < n0 ==> holds_recs(fin.bytes(), u0, cur) && !fin.maybe_compressed)
+                && (forall|j: int| 0 <= j < cur.len() ==> yielded.contains(#[trigger] cur[j])),
+        ensures increasing(cur, n0), fin.wf(), sec_count(fin.bytes(), Section::Answer) == cur.len(),
+                cur.len() < n0 ==> holds_recs(fin.bytes(), u0, cur) && !fin.maybe_compressed,
+                forall|j: int| 0 <= j < cur.len() ==> yielded.contains(#[trigger] cur[j]),
+        decreases cur.len(), (match it { Some(i) => i.count() - i.visited() + 1, None => 0int })
+    {
+        let mut item = item;
+        let ghost k = item.visited() - 1;
+        proof { item.lemma_wf_facts(); yielded = yielded.insert(cur[k]); }
+        if decide(&item) {
+            let ghost itb = item;
+            let _ = client_delete(&mut item);
+            proof {
+                let mid = choose|mid: ParsedPacket| #[trigger] cut_post(&itb, mid, item.pk());
+                let u = mid.bytes(); let v = item.pk(); let n = sec_n(u, 1);
+                assert(st0 == sec_st(u, 1) && n == cur.len() && holds_recs(u, u0, cur)) by { reveal(rec_bytes); }
+                lemma_pf_packet_facts(u);
+                lemma_cut_recs(u, v, st0, n, k);
+                let c2 = cur.remove(k);
+                assert forall|j: int| 0 <= j < c2.len() implies #[trigger] rec_bytes(v, st0, j) == rec_bytes(u0, st0, c2[j]) by {
+                    if j < k { assert(c2[j] == cur[j]); assert(rec_bytes(v, st0, j) == rec_bytes(u, st0, j)); }
+                    else { assert(c2[j] == cur[j + 1]); assert(rec_bytes(v, st0, j) == rec_bytes(u, st0, j + 1)); }
+                }
+                assert(increasing(c2, n0)) by {
+                    assert forall|j: int| 0 <= j < c2.len() implies 0 <= #[trigger] c2[j] < n0 by { if j < k { assert(c2[j] == cur[j]); } else { assert(c2[j] == cur[j + 1]); } }
+                    assert forall|i: int, j: int| 0 <= i < j < c2.len() implies c2[i] < c2[j] by {
+                        let a = if i < k { i } else { i + 1 }; let b = if j < k { j } else { j + 1 };
+                        assert(c2[i] == cur[a] && c2[j] == cur[b]);
+                    }
+                }
+                cur = c2;
+            }
+        }
+        let ghost v = item.pk();
+        proof {
+            // no OPT record in the answer section: next() never skips, and yields a record whenever one is left
+            assert(wf_bytes(v)) by { reveal(ParsedPacket::wf); }
+            reveal(wf_bytes);
+            if item.visited() < item.count() { lemma_no_opt_at(v, sec_start(v, Section::Answer), sec_count(v, Section::Answer), item.visited()); }
+        }
+        it = item.next();
+    }
+    proof { if cur.len() == 0 { reveal(ParsedPacket::wf); } }
+    (Ghost(cur), Ghost(yielded))
 }
